@@ -8,19 +8,59 @@ use proptest::prelude::*;
 
 pub struct C02;
 
+#[derive(Clone, Debug, serde::Serialize, serde::Deserialize)]
+#[serde(untagged)]
+pub enum Case {
+    Pair(PairScenario),
+    /// the long-haul history of C01 in which a network duplicate of an old ack frame reaches the sender after the packet
+    /// ids have come round once (see `c01::stale_ack_history`)
+    StaleAck { long_haul: crate::props::c01::LongHaul },
+}
+
 pub const STALL_US: u64 = 900_000_000; // 15 virtual minutes without any progress indicator moving
+fn run_stale_ack(c: &crate::props::c01::LongHaul) -> CaseResult {
+    let r = crate::props::c01::stale_ack_history(c);
+    let mut classes = r.classes.clone();
+    let m = match match_direction(&r.sc, &r.trace, 0) {
+        Ok(m) => m,
+        Err(v) => return CaseResult { violation: Some(v), nontrivial: true, classes },
+    };
+    if let Err(v) = check_reliable_not_skipped(&r.trace.subs[0], &m) {
+        return CaseResult { violation: Some(v), nontrivial: true, classes };
+    }
+    if r.complete {
+        // the history ends with two seconds (400 steps) in which nothing moved on a loss-free network
+        let undelivered = r.trace.subs[0].iter().filter(|sub| sub.mode == 3 && m.sub_delivered[sub.idx as usize].is_none()).count();
+        if undelivered > 0 || r.end_pending || r.end_send_buffer != 0 {
+            return CaseResult::fail(
+                "oracle:c02:stalled:old_ack_duplicate_after_packet_ids_came_round",
+                format!(
+                    "a network duplicate of an ack frame sent {} packets earlier (one turn of the 20-bit packet ids) reached the sender while the packets just before the id it names had been lost in transit; afterwards, on a loss-free network: {} Reliable packets never delivered, is_send_pending={}, send_buffer_size={}, sender packet window {:?}",
+                    1u32 << 20, undelivered, r.end_pending, r.end_send_buffer, r.end_window
+                ),
+            );
+        }
+        classes.push("quiescent");
+    }
+    CaseResult::ok(r.complete, classes)
+}
+
 pub const CAP_US: u64 = 6 * 3600 * 1_000_000; // 6 virtual hours
 
 impl Check for C02 {
-    type Case = PairScenario;
+    type Case = Case;
 
     fn id(&self) -> &'static str {
         "C02"
     }
 
-    fn strategy(&self, tier: Tier) -> BoxedStrategy<PairScenario> {
+    fn strategy(&self, tier: Tier) -> BoxedStrategy<Case> {
         let p = GenParams { max_ticks: tier.pick(150, 400), max_sends: tier.pick(5, 8), max_frags: tier.pick(3, 8), tail: true, chatter: true, modes: [1, 1, 1, 4], ..GenParams::default() };
-        prop_oneof![7 => scenario_strategy(&p), 2 => bulk_scenario_strategy(tier.pick(100, 300), tier.pick(40, 120), true, true)].boxed()
+        let pair = prop_oneof![7 => scenario_strategy(&p), 2 => bulk_scenario_strategy(tier.pick(100, 300), tier.pick(40, 120), true, true)].prop_map(Case::Pair);
+        // (a stale-ack case moves more than a million packets: about a second each, hence few)
+        let stale = (any::<u64>(), prop_oneof![Just(0u32), 0u32..=PKT_MASK], prop_oneof![Just(0u32), (0u32..100_000).prop_map(|d| u32::MAX - d), any::<u32>()], prop_oneof![Just(0u32), 0u32..20_000], 0u16..3000, 5u8..60, 1u8..6)
+            .prop_map(|(seed, pkt_base, frm_base, latency_us, delta, reliable_pct, channels)| Case::StaleAck { long_haul: crate::props::c01::LongHaul { seed, pkt_base, frm_base, latency_us, hold_ms: 2500, delta, reliable_pct, channels, stale_ack: true } });
+        prop_oneof![6000 => pair, 1 => stale].boxed()
     }
 
     fn extra(&self, tier: Tier, seed: u64) -> ExtraResult {
@@ -28,7 +68,7 @@ impl Check for C02 {
             return ExtraResult::default();
         }
         // coverage-guided search over the same scenario space with the same oracle (harness/fuzz, target pair_oracles)
-        crate::props::pairfuzz::pair_fuzz_extra("C02", seed, 250_000, &|sc| self.run(sc), &|sc| serde_json::to_value(sc).unwrap_or_default())
+        crate::props::pairfuzz::pair_fuzz_extra("C02", seed, 60_000, &|sc| self.run(&Case::Pair(sc.clone())), &|sc| serde_json::to_value(sc).unwrap_or_default())
     }
 
     fn cases(&self, tier: Tier) -> u64 {
@@ -44,7 +84,7 @@ impl Check for C02 {
     }
 
     fn rule(&self) -> String {
-        "case = SimPair scenario as in C01 (all four modes, faults on data / ack / sync frames in both directions, loss bursts, pauses) followed by a fair phase (no faults, both endpoints stepping at a generated cadence). Safety at every delivery: no packet is delivered while an earlier Reliable packet of its channel is undelivered. Bounded liveness: the fair phase must reach quiescence (every Reliable packet delivered exactly once, is_send_pending()==false, send_buffer_size()==0) without any 15-virtual-minute interval in which no progress indicator (deliveries, queue lengths, buffer size, allocation counters) moves. In about 4 of 10 scenarios one application keeps submitting a small packet (any mode, every step up to every 1.5 s) during the fair phase until the OTHER direction has nothing left to do; then only the silent direction is judged, by its own progress indicators, and the talker's packets join the send history. Non-trivial = a frame carrying (part of) a Reliable packet, or an ack frame, was dropped or corrupted, so a retransmission was actually needed. Distinct = distinct serialised scenario.".into()
+        "case = SimPair scenario as in C01 (all four modes, faults on data / ack / sync frames in both directions, loss bursts, pauses) followed by a fair phase (no faults, both endpoints stepping at a generated cadence). Safety at every delivery: no packet is delivered while an earlier Reliable packet of its channel is undelivered. Bounded liveness: the fair phase must reach quiescence (every Reliable packet delivered exactly once, is_send_pending()==false, send_buffer_size()==0) without any 15-virtual-minute interval in which no progress indicator (deliveries, queue lengths, buffer size, allocation counters) moves. In about 4 of 10 scenarios one application keeps submitting a small packet (any mode, every step up to every 1.5 s) during the fair phase until the OTHER direction has nothing left to do; then only the silent direction is judged, by its own progress indicators, and the talker's packets join the send history. A few cases per run are the long-haul history of C01 with a stale acknowledgement: warm-up, 2^20 packets so that the ids come round, a burst (beginning with Reliable packets) whose data frames are all lost, then a network duplicate of the warm-up's last ack frame - its packet window base lies inside the sender's window again -, then 9000 more packets and quiet stepping on a loss-free network: every Reliable packet must arrive, nothing may stay pending. Non-trivial = a frame carrying (part of) a Reliable packet, or an ack frame, was dropped or corrupted, so a retransmission was actually needed. Distinct = distinct serialised scenario.".into()
     }
 
     fn assumptions(&self) -> Vec<String> {
@@ -55,7 +95,11 @@ impl Check for C02 {
         ]
     }
 
-    fn run(&self, sc: &PairScenario) -> CaseResult {
+    fn run(&self, case: &Case) -> CaseResult {
+        let sc = match case {
+            Case::Pair(sc) => sc,
+            Case::StaleAck { long_haul } => return run_stale_ack(long_haul),
+        };
         let mut sc = sc.clone();
         sc.normalize();
         let mut sim = SimPair::new(&sc);
